@@ -145,6 +145,17 @@ consttruth(struct expr *e)
 	return e->type->prop & PROPFLOAT ? e->u.constant.f != 0 : e->u.constant.u != 0;
 }
 
+/* integer division the host cannot perform and C leaves undefined (6.5.5p5-6) */
+static bool
+divfault(enum tokenkind op, struct expr *l, struct expr *r)
+{
+	if (op != TDIV && op != TMOD || !(l->type->prop & PROPINT))
+		return false;
+	if (r->u.constant.u == 0)
+		return true;
+	return l->type->u.basic.issigned && l->u.constant.u == 1ull << 63 && r->u.constant.u == -1ull;
+}
+
 struct expr *
 eval(struct expr *expr)
 {
@@ -277,7 +288,7 @@ eval(struct expr *expr)
 			}
 			break;
 		default:
-			if (l->kind != EXPRCONST || r->kind != EXPRCONST)
+			if (l->kind != EXPRCONST || r->kind != EXPRCONST || divfault(expr->op, l, r))
 				break;
 			binary(expr, expr->op, l, r);
 		}
